@@ -18,10 +18,16 @@ from ..ref import models
 
 PROPERTY = "C16"
 
-T = (1, 3, 5)
-ENTRY = T + (1,)
-BEFORE = ((1, 3, 4, 9), ("str", b"before"))
+# table OIDs: an ordinary one and one that itself ends in .1 (like ifXTable)
+TABLES = [(1, 3, 5), (1, 3, 1)]
+BEFORE = ((1, 2, 9), ("str", b"before"))
 AFTER = ((1, 3, 6, 1), ("str", b"after"))
+
+
+def after10(T):
+    """a neighbour whose OID has the decimal digits of the table OID as a
+    prefix (1.3.5 -> 1.3.50.1)"""
+    return (T[:-1] + (T[-1] * 10, 1), ("str", b"after10"))
 
 INDEX_SHAPES = {
     "single": [(1,), (2,), (10,), (4294967295,)],
@@ -29,27 +35,29 @@ INDEX_SHAPES = {
     "triple": [(1, 1, 1), (1, 1, 2), (2, 0, 0), (2, 0, 16384)],
     "mixed": [(1,), (1, 1), (2,), (2, 0, 1)],
 }
-COLUMNS = [1, 2, 7]
+COLUMNS = [1, 2, 10]
 
 
 def bounds(tier):
     if tier == "quick":
-        return {"shapes": list(INDEX_SHAPES), "bulk": [1, 2, 5, 10], "neighbours": [(0, 0), (0, 1), (1, 0), (1, 1)], "max_cols": 3, "max_rows": 3, "py_max_cells": 4}
-    return {"shapes": list(INDEX_SHAPES), "bulk": [1, 2, 3, 5, 10, 25], "neighbours": [(0, 0), (0, 1), (1, 0), (1, 1)], "max_cols": 3, "max_rows": 4, "py_max_cells": 12}
+        return {"shapes": list(INDEX_SHAPES), "bulk": [1, 2, 5, 10], "neighbours": [(0, 0), (0, 1), (1, 0), (1, 2)], "max_cols": 3, "max_rows": 3, "py_max_cells": 4, "shapes_second_table": ["single", "mixed"]}
+    return {"shapes": list(INDEX_SHAPES), "bulk": [1, 2, 3, 5, 10, 25], "neighbours": [(0, 0), (0, 1), (1, 0), (1, 1), (0, 2), (1, 2)], "max_cols": 3, "max_rows": 4, "py_max_cells": 12, "shapes_second_table": list(INDEX_SHAPES)}
 
 
 def tables(b):
     """-> (shape, ncols, nrows, presence bitmask, neighbours)"""
-    for shape in b["shapes"]:
+    for ti, shape in [(ti, sh) for ti in range(len(TABLES)) for sh in b["shapes"] if ti == 0 or sh in b["shapes_second_table"]]:
         for ncols in range(1, b["max_cols"] + 1):
             for nrows in range(0, b["max_rows"] + 1):
                 cells = ncols * nrows
                 for mask in range(1 << cells):
                     for nb in b["neighbours"]:
-                        yield (shape, ncols, nrows, mask, nb)
+                        yield (shape, ncols, nrows, mask, nb, ti)
 
 
-def build(shape, ncols, nrows, mask, nb):
+def build(shape, ncols, nrows, mask, nb, ti=0):
+    T = TABLES[ti]
+    ENTRY = T + (1,)
     db = {}
     idxs = INDEX_SHAPES[shape][:nrows]
     k = 0
@@ -62,12 +70,14 @@ def build(shape, ncols, nrows, mask, nb):
             k += 1
     if nb[0]:
         db[BEFORE[0]] = BEFORE[1]
-    if nb[1]:
+    if nb[1] == 1:
         db[AFTER[0]] = AFTER[1]
+    elif nb[1] == 2:
+        db[after10(T)[0]] = after10(T)[1]
     return db
 
 
-def expected_rows(db):
+def expected_rows(db, ENTRY):
     view = models.table_view(db, ENTRY)
     rows = []
     for idx, cells in view.items():
@@ -78,7 +88,8 @@ def expected_rows(db):
     return tuple(sorted(rows))
 
 
-def py_rows(w, variant, bulk):
+def py_rows(w, variant, bulk, T):
+    ENTRY = T + (1,)
     if variant == "pytable":
         res = drive.run(w.table(".".join(map(str, ENTRY))))
     else:
@@ -107,7 +118,9 @@ def creds():
 
 def run_table(spec, b, client, w):
     db = build(*spec)
-    want = expected_rows(db)
+    T = TABLES[spec[5]]
+    ENTRY = T + (1,)
+    want = expected_rows(db, ENTRY)
     ncells = sum(1 for o in db if models.is_prefix(ENTRY, o))
     variants = [("table", None)] + [("bulktable", k) for k in b["bulk"]]
     if ncells <= b["py_max_cells"]:
@@ -120,7 +133,7 @@ def run_table(spec, b, client, w):
         client.sender.handle = ag.handle
         client.sender.calls = []
         client.sender.limit = len(db) + 6
-        facts = {"db": sorted(db), "variant": variant, "bulk": bulk, "shape": spec[0]}
+        facts = {"db": sorted(db), "table": T, "variant": variant, "bulk": bulk, "shape": spec[0]}
         try:
             if variant == "table":
                 got, exc = ops.run_op(client, ("table", ENTRY))
@@ -128,7 +141,7 @@ def run_table(spec, b, client, w):
                 got, exc = ops.run_op(client, ("bulktable", T, bulk))
             else:
                 try:
-                    got, exc = py_rows(w, variant, bulk), None
+                    got, exc = py_rows(w, variant, bulk, T), None
                 except drive.HarnessError:
                     raise
                 except Exception as e:  # noqa
@@ -168,7 +181,7 @@ def run_shard(params, acc):
         acc.count(evaluations=nvar, nontrivial=nvar if ncells >= 2 else 0, states=nvar, transitions=nreq, traces=nvar)
         acc.outcome("ok" if not violations else violations[0]["kind"])
         if ncells >= 3:
-            acc.sample({"index_shape": spec[0], "columns": spec[1], "rows": spec[2], "presence_mask": spec[3], "neighbours": spec[4], "cells": sorted(build(*spec))}, interesting=spec[0] == "mixed")
+            acc.sample({"table": TABLES[spec[5]], "index_shape": spec[0], "columns": spec[1], "rows": spec[2], "presence_mask": spec[3], "neighbours": spec[4], "cells": sorted(build(*spec))}, interesting=spec[0] == "mixed")
         for v in violations:
             v["case"] = {"spec": list(spec), "tier": params["tier"]}
             acc.violation(v)
@@ -181,7 +194,7 @@ def replay(case):
     client, _ = world.make_client(creds(), lambda p: b"")
     w = PyWrapper(client)
     s = case["spec"]
-    spec = (s[0], s[1], s[2], s[3], tuple(s[4]))
+    spec = (s[0], s[1], s[2], s[3], tuple(s[4]), s[5] if len(s) > 5 else 0)
     return run_table(spec, b, client, w)[0]
 
 
@@ -189,7 +202,7 @@ def meta(tier):
     b = bounds(tier)
     return {
         "level": "model_checking",
-        "rule": "every table with 1..%d columns (column numbers 1, 2, 7) x 0..%d rows x every presence pattern of its cells x index shapes %r x neighbours (before, after) in %r; each fetched by Client.table(entry OID), Client.bulktable(table OID) with bulk sizes %r and (tables of <= %d cells) the two PyWrapper variants, all compared with the reference table view; an evaluation = one fetch; non-trivial = table with at least 2 cells; states = fetches, transitions = exchanges"
+        "rule": "table OIDs 1.3.5 and 1.3.1 (the latter ends in .1 like its own entry); every table with 1..%d columns (column numbers 1, 2, 10) x 0..%d rows x every presence pattern of its cells x index shapes %r x neighbours (before, after) in %r; each fetched by Client.table(entry OID), Client.bulktable(table OID) with bulk sizes %r and (tables of <= %d cells) the two PyWrapper variants, all compared with the reference table view; an evaluation = one fetch; non-trivial = table with at least 2 cells; states = fetches, transitions = exchanges"
         % (b["max_cols"], b["max_rows"], b["shapes"], b["neighbours"], b["bulk"], b["py_max_cells"]),
         "exhaustive": True,
         "bounds": b,
